@@ -4,6 +4,8 @@
    The fragment `ssel_resource d`: trees whose patterns JOIN (at every nesting level) to a pattern of
    RoundTripSel.sel_pattern d and whose text elements, at every nesting level, are not empty and have a
    line feed only as their last byte (what the parser returns: RoundTripSel.goodd).
+   Inline expressions with call arguments (CallArgs.binline, CallArgs.bsel) are written in the canonical text
+   SerializerCalls.ctext.
      1. the canonical text of expressions and patterns (structural functions of the joined tree)
      2. it is a layout (RoundTripSel.etextd / RoundTripML.ml_value_layout)
      3. the serializer writes it for every split tree that joins to the tree
@@ -12,6 +14,7 @@ From FluentV Require Import Base.Bytes Base.Outcome Base.Utf8 Base.Utf8Facts.
 From FluentV Require Import Syntax.Ast Syntax.ParserModel Syntax.SerializerModel Syntax.Render Syntax.TreeNorm.
 From FluentV Require Import Syntax.ParseLemmas Syntax.SerializerProofs Syntax.RoundTrip Syntax.SerializerRoundTrip.
 From FluentV Require Import Syntax.EntryLoop Syntax.RoundTripML Syntax.RoundTripSel Syntax.SerializerLoop Syntax.SerializerML.
+From FluentV Require Import Syntax.CallArgs Syntax.SerializerCalls.
 From Coq Require Import Lia.
 
 Arguments N.eqb : simpl never.
@@ -38,7 +41,7 @@ Fixpoint ex_text (m : nat) (e : expression) {struct e} : bytes :=
 with in_text (m : nat) (i : inline) {struct i} : bytes :=
   match i with
   | Placeable e1 => [123%N] ++ ex_text m e1 ++ (if is_sel e1 then ind m else []) ++ [125%N]
-  | _ => inline_text i
+  | _ => ctext i
   end
 with var_text (m1 : nat) (v : variant) {struct v} : bytes :=
   match v with
@@ -95,7 +98,9 @@ Qed.
 (* ---------------------------------------------------------------------------------------------- *)
 (* 2. The canonical text is a layout                                                                *)
 
-Lemma in_text_simple m i : simple_inline i = true -> in_text m i = inline_text i.
+Lemma in_text_binline m i : binline i = true -> in_text m i = ctext i.
+Proof. destruct i; try reflexivity. discriminate. Qed.
+Lemma in_text_bsel m i : bsel i = true -> in_text m i = ctext i.
 Proof. destruct i; try reflexivity. discriminate. Qed.
 
 Definition EL (d : nat) : Prop := forall m e, eokd d e = true -> etextd d e (ex_text m e).
@@ -110,7 +115,8 @@ Lemma pl_text_layout0 m e : eokd 0 e = true ->
   exists b1 X b2, pl_text m e = 123%N :: b1 ++ X ++ b2 ++ [125%N] /\ all_blank b1 /\ all_blank b2 /\ etextd 0 e X.
 Proof.
   destruct e as [sel vs | i]; [discriminate|]. cbn [eokd eok0]. intros Hi.
-  exists (sp 1), (inline_text i), (sp 1). split; [|split; [apply all_blank_sp | split; [apply all_blank_sp | constructor; exact Hi]]].
+  exists (sp 1), (ctext i), (sp 1).
+  split; [|split; [apply all_blank_sp | split; [apply all_blank_sp | constructor; [exact Hi | apply (itext_ctext i Hi)]]]].
   unfold pl_text. destruct i; try discriminate Hi; reflexivity.
 Qed.
 
@@ -119,7 +125,8 @@ Lemma pl_text_layoutS d m e : EL d -> EL (S d) -> eokd (S d) e = true ->
 Proof.
   intros HELd HELS He.
   destruct (eokd_S_cases d e He) as [(i & -> & Hi) | [(e1 & -> & He1) | (sel & vs & -> & Hsel & Hcnt & Hvs)]].
-  - exists (sp 1), (inline_text i), (sp 1). split; [|split; [apply all_blank_sp | split; [apply all_blank_sp | left; constructor; exact Hi]]].
+  - exists (sp 1), (ctext i), (sp 1).
+    split; [|split; [apply all_blank_sp | split; [apply all_blank_sp | left; constructor; [exact Hi | apply (itext_ctext i Hi)]]]].
     unfold pl_text. destruct i; try discriminate Hi; reflexivity.
   - exists [], (123%N :: sp 1 ++ ex_text m e1 ++ ((if is_sel e1 then ind m else []) ++ sp 1) ++ [125%N]), [].
     split; [|split; [reflexivity | split; [reflexivity|]]].
@@ -185,22 +192,22 @@ Qed.
 Lemma EL_0 : EL 0.
 Proof.
   intros m e He. destruct e as [sel vs | i]; [discriminate He|]. cbn [eokd eok0] in He.
-  cbn [ex_text]. rewrite (in_text_simple m i He). constructor. exact He.
+  cbn [ex_text]. rewrite (in_text_binline m i He). constructor; [exact He | apply (itext_ctext i He)].
 Qed.
 
 Lemma EL_S d : EL d -> PL d -> EL (S d).
 Proof.
   intros HEL HPL m e He.
   destruct (eokd_S_cases d e He) as [(i & -> & Hi) | [(e1 & -> & He1) | (sel & vs & -> & Hsel & Hcnt & Hvs)]].
-  - cbn [ex_text]. rewrite (in_text_simple m i Hi). left. constructor. exact Hi.
+  - cbn [ex_text]. rewrite (in_text_binline m i Hi). left. constructor; [exact Hi | apply (itext_ctext i Hi)].
   - right; left. exists e1, [], (if is_sel e1 then ind m else []), (ex_text m e1).
     split; [reflexivity | split; [reflexivity | split; [apply all_blank_closing | split; [apply (HEL m e1 He1) | reflexivity]]]].
-  - right; right. rewrite ex_text_select, (in_text_simple m sel (sel_ok_simple sel Hsel)).
+  - right; right. rewrite ex_text_select, (in_text_bsel m sel Hsel).
     assert (Hne : vs <> []) by (intros ->; discriminate Hcnt).
     destruct (vars_text_layout d (S m) vs HPL Hvs Hne) as (W0 & VS & -> & HW0 & HVS).
-    change (inline_text sel ++ [32; 45; 62; 10]%N ++ W0 ++ VS)
-      with (inline_text sel ++ sp 1 ++ [45; 62]%N ++ sp 0 ++ lf ++ W0 ++ VS).
-    apply sell; try assumption; [apply all_blank_sp | discriminate | left; reflexivity].
+    change (ctext sel ++ [32; 45; 62; 10]%N ++ W0 ++ VS)
+      with (ctext sel ++ sp 1 ++ [45; 62]%N ++ sp 0 ++ lf ++ W0 ++ VS).
+    apply sell; try assumption; [apply (seltext_ctext sel Hsel) | apply all_blank_sp | discriminate | left; reflexivity].
 Qed.
 
 Lemma PL_of_EL0 : EL 0 -> PL 0.
@@ -412,34 +419,27 @@ Definition sexp (d : nat) (e : expression) : Prop := eokd d (join_expr e) = true
 Definition spat (d : nat) (els : list pattern_element) : Prop :=
   ml_pattern (eokd d) (Pattern (jels els)) = true /\ Forall (text_ok (goodd d)) els.
 
-Lemma join_inline_simple_inv i i0 : join_inline i = i0 -> simple_inline i0 = true -> i = i0.
+Lemma sexp_0 e : sexp 0 e -> exists i, e = Inline i /\ binline i = true.
 Proof.
-  intros E Hi.
-  destruct i as [s | v | id args | id att | id att args | id | e]; cbn [join_inline] in E; subst i0; try reflexivity;
-    try discriminate Hi.
-  cbn [simple_inline] in Hi. destruct att; [discriminate Hi|]. destruct args; [discriminate Hi | reflexivity].
-Qed.
-
-Lemma sexp_0 e : sexp 0 e -> exists i, e = Inline i /\ simple_inline i = true.
-Proof.
-  intros [He _]. cbn [eokd] in He. destruct (join_expr e) as [sel vs | i0] eqn:Ej; [discriminate He|]. cbn [eok0] in He.
-  exists i0. split; [apply (join_expr_simple_inv e i0 Ej He) | exact He].
+  intros [He _]. cbn [eokd] in He. destruct e as [sel vs | i]; [rewrite join_expr_select in He; discriminate He|].
+  change (join_expr (Inline i)) with (Inline (join_inline i)) in He. cbn [eok0] in He.
+  exists i. split; [reflexivity|]. rewrite <- (join_inline_binline_inv i _ eq_refl He) in He. exact He.
 Qed.
 
 Lemma count_defaults_join vs : count_defaults (map join_variant vs) = count_defaults vs.
 Proof. induction vs as [|[k p d0] r IH]; [reflexivity|]. cbn [map join_variant count_defaults]. rewrite IH. reflexivity. Qed.
 
 Lemma sexp_S d e : sexp (S d) e ->
-  (exists i, e = Inline i /\ simple_inline i = true) \/
+  (exists i, e = Inline i /\ binline i = true) \/
   (exists e1, e = Inline (Placeable e1) /\ sexp d e1) \/
-  (exists sel vs, e = Select sel vs /\ sel_ok sel = true /\ vs <> [] /\
+  (exists sel vs, e = Select sel vs /\ bsel sel = true /\ vs <> [] /\
      Forall (fun v => match v with Variant k (Pattern els) _ => key_ok k = true /\ spat d els end) vs).
 Proof.
   intros [He Hg]. destruct e as [sel vs | i].
   - right; right. rewrite join_expr_select in He.
     destruct (eokd_S_cases d _ He) as [(i & E & _) | [(e1 & E & _) | (sel0 & vs0 & E & Hsel & Hcnt & Hvs)]]; try discriminate E.
     injection E as <- <-.
-    pose proof (join_inline_simple_inv sel _ eq_refl (sel_ok_simple _ Hsel)) as Es. rewrite <- Es in Hsel.
+    pose proof (join_inline_bsel_inv sel _ eq_refl Hsel) as Es. rewrite <- Es in Hsel.
     exists sel, vs. split; [reflexivity | split; [exact Hsel | split]].
     + intros ->. discriminate Hcnt.
     + cbn [goodd] in Hg. rewrite Forall_forall in *. intros v Hv. specialize (Hg v Hv).
@@ -448,7 +448,7 @@ Proof.
       rewrite join_pattern_jels in Hp. split; [exact Hk | split; [exact Hp | exact Hg]].
   - change (join_expr (Inline i)) with (Inline (join_inline i)) in He.
     destruct (eokd_S_cases d _ He) as [(i0 & E & Hi0) | [(e1 & E & He1) | (sel0 & vs0 & E & _)]]; [| | discriminate E].
-    + injection E as E. left. exists i0. split; [f_equal; apply (join_inline_simple_inv i i0 E Hi0) | exact Hi0].
+    + injection E as E. left. exists i0. split; [f_equal; apply (join_inline_binline_inv i i0 E Hi0) | exact Hi0].
     + injection E as E. right; left.
       destruct i as [s | v | id args | id att | id att args | id | e0]; cbn [join_inline] in E; try discriminate E.
       injection E as E. exists e0. split; [reflexivity|]. split; [rewrite E; exact He1 | exact Hg].
@@ -547,30 +547,30 @@ Definition SP (d : nat) : Prop := forall els x, spat d els -> mid_line x ->
   Done (Writer (rev (pat_text (indent_level x) (Pattern (jels els))) ++ rbuf x) (indent_level x)) /\
   mid_line (Writer (rev (pat_text (indent_level x) (Pattern (jels els))) ++ rbuf x) (indent_level x)).
 
-Lemma SE_simple i x : simple_inline i = true -> ends_with 10 x = false ->
+Lemma SE_simple i x : binline i = true -> ends_with 10 x = false ->
   serialize_expression (Inline i) x = Done (Writer (rev (ex_text (indent_level x) (join_expr (Inline i))) ++ rbuf x) (indent_level x)) /\
   ends_with 10 (Writer (rev (ex_text (indent_level x) (join_expr (Inline i))) ++ rbuf x) (indent_level x)) = is_sel (join_expr (Inline i)).
 Proof.
-  intros Hi H10. change (join_expr (Inline i)) with (Inline (join_inline i)). rewrite (simple_inline_join i Hi).
-  cbn [ex_text is_sel]. rewrite (in_text_simple _ i Hi).
-  destruct (writes_simple_inline i Hi x H10) as [E H]. split; [exact E | exact H].
+  intros Hi H10. change (join_expr (Inline i)) with (Inline (join_inline i)). rewrite (join_binline i Hi).
+  cbn [ex_text is_sel]. rewrite (in_text_binline _ i Hi).
+  destruct (writes_binline i Hi x H10) as [E H]. split; [exact E | exact H].
 Qed.
 
 (* ---- the serializer on a placeable element ---- *)
-Lemma plw_simple m i : simple_inline i = true -> plw m (Inline i).
+Lemma plw_simple m i : binline i = true -> plw m (Inline i).
 Proof.
-  intros Hi x Hl H13. change (join_expr (Inline i)) with (Inline (join_inline i)). rewrite (simple_inline_join i Hi).
+  intros Hi x Hl H13. change (join_expr (Inline i)) with (Inline (join_inline i)). rewrite (join_binline i Hi).
   assert (Hse : serialize_element (PlaceableElement (Inline i)) =
                 (lit "{ " >> serialize_expression (Inline i) >> lit " }"))
     by (destruct i; try discriminate Hi; reflexivity).
   rewrite Hse. unfold wseq at 1. unfold lit at 1. rewrite (write_literal_nolf _ x); [|reflexivity]. cbn [obind bytes_of_string].
-  assert (Hw2 : writes (serialize_expression (Inline i) >> lit " }") (inline_text i ++ [32; 125]%N))
-    by (apply writes_seq; [apply (writes_simple_inline i Hi) | apply writes_lit; reflexivity]).
+  assert (Hw2 : writes (serialize_expression (Inline i) >> lit " }") (ctext i ++ [32; 125]%N))
+    by (apply writes_seq; [apply (writes_binline i Hi) | apply writes_lit; reflexivity]).
   match goal with |- _ ?y = _ => destruct (Hw2 y eq_refl) as [E2 _] end.
   rewrite E2. cbn [rbuf indent_level]. rewrite Hl. do 2 f_equal.
-  unfold pl_text. rewrite (in_text_simple m i Hi).
-  replace (match i with Placeable e1 => _ | _ => [123; 32]%N ++ inline_text i ++ [32; 125]%N end)
-    with ([123; 32]%N ++ inline_text i ++ [32; 125]%N) by (destruct i; try discriminate Hi; reflexivity).
+  unfold pl_text. rewrite (in_text_binline m i Hi).
+  replace (match i with Placeable e1 => _ | _ => [123; 32]%N ++ ctext i ++ [32; 125]%N end)
+    with ([123; 32]%N ++ ctext i ++ [32; 125]%N) by (destruct i; try discriminate Hi; reflexivity).
   rewrite !rev_app_distr. cbn [rev app]. rewrite <- !app_assoc. reflexivity.
 Qed.
 
@@ -711,9 +711,9 @@ Proof.
     rewrite Eb. split; [reflexivity|]. rewrite !app_assoc, rev_app_distr. reflexivity.
   - (* a select expression *)
     rewrite serialize_select_eq, join_expr_select, ex_text_select.
-    rewrite (simple_inline_join sel (sel_ok_simple sel Hsel)), (in_text_simple _ sel (sel_ok_simple sel Hsel)).
-    assert (Hw : writes (serialize_inline_expression sel >> lit " ->") (inline_text sel ++ [32; 45; 62]%N)).
-    { apply writes_seq; [apply (writes_simple_inline sel (sel_ok_simple sel Hsel)) | apply writes_lit; reflexivity]. }
+    rewrite (join_bsel sel Hsel), (in_text_bsel _ sel Hsel).
+    assert (Hw : writes (serialize_inline_expression sel >> lit " ->") (ctext sel ++ [32; 45; 62]%N)).
+    { apply writes_seq; [apply (writes_bsel sel Hsel) | apply writes_lit; reflexivity]. }
     destruct (Hw x H10) as [E1 _].
     assert (Hre : (serialize_inline_expression sel >> lit " ->" >> newline >> indent >> ser_variants vs >> dedent) x =
                   obind ((serialize_inline_expression sel >> lit " ->") x) (newline >> indent >> ser_variants vs >> dedent)).
@@ -722,10 +722,10 @@ Proof.
     rewrite newline_plain by (rewrite rev_app_distr; reflexivity). cbn [obind rbuf indent_level].
     unfold wseq at 1. unfold indent at 1. cbn [obind rbuf indent_level].
     destruct (ser_variants_ok d (indent_level x) vs HSP Hvs
-                (Writer (10%N :: rev (inline_text sel ++ [32; 45; 62]%N) ++ rbuf x) (S (indent_level x))) eq_refl eq_refl) as [E2 H2].
+                (Writer (10%N :: rev (ctext sel ++ [32; 45; 62]%N) ++ rbuf x) (S (indent_level x))) eq_refl eq_refl) as [E2 H2].
     cbn [rbuf] in E2, H2. unfold wseq. rewrite E2. cbn [obind]. unfold dedent. cbn [indent_level rbuf is_sel].
-    assert (Eb : rev (vars_text (S (indent_level x)) (map join_variant vs)) ++ 10%N :: rev (inline_text sel ++ [32; 45; 62]%N) ++ rbuf x =
-                 rev (inline_text sel ++ [32; 45; 62; 10]%N ++ vars_text (S (indent_level x)) (map join_variant vs)) ++ rbuf x).
+    assert (Eb : rev (vars_text (S (indent_level x)) (map join_variant vs)) ++ 10%N :: rev (ctext sel ++ [32; 45; 62]%N) ++ rbuf x =
+                 rev (ctext sel ++ [32; 45; 62; 10]%N ++ vars_text (S (indent_level x)) (map join_variant vs)) ++ rbuf x).
     { rewrite !rev_app_distr. cbn [rev app]. rewrite <- !app_assoc. reflexivity. }
     rewrite Eb in *. split; [reflexivity | exact H2].
 Qed.
@@ -919,7 +919,9 @@ Qed.
 Lemma sml_pok_ssel els : sml_pok els = true -> ssel_pok 0 els = true.
 Proof.
   intros Hp. destruct (sml_pok_parts els Hp) as (Hml & Hok & Hsp). apply ssel_pok_spat. split; [|exact Hok].
-  unfold jels. rewrite (split_join_map els Hsp). exact Hml.
+  unfold jels. rewrite (split_join_map els Hsp).
+  apply (ml_pattern_mono eoks (eokd 0)); [|exact Hml].
+  intros [sel vs | i]; [discriminate|]. apply simple_binline.
 Qed.
 
 Theorem sml_resource_ssel t : sml_resource t = true -> ssel_resource 0 t = true.
